@@ -831,8 +831,8 @@ CHECK = Check(
         "partially received, or a parse error / timeout is observed between two delivered requests; distinct = sha1 of the case"
     ),
     layers=[
-        Layer("lowlevel", _strategy("lowlevel"), run_case, {"quick": 1200, "thorough": 10000}),
-        Layer("highlevel", _strategy("highlevel"), run_case, {"quick": 1200, "thorough": 10000}),
+        Layer("lowlevel", _strategy("lowlevel"), run_case, {"quick": 1200, "thorough": 8000}),
+        Layer("highlevel", _strategy("highlevel"), run_case, {"quick": 1200, "thorough": 8000}),
     ],
     assumptions=[
         "malformed frames are those with a frame-exact error (bad encoding / bad JSON line / marked payload / bad trailer / bad record / "
